@@ -109,6 +109,7 @@ type Profile struct {
 	ProbeEvery    int            `json:"probe_every"`  // probe after every n-th event (0: only at the end)
 	ProbeAround   bool           `json:"probe_around"` // probe before every request as well (C07)
 	BadKeyPct     int            `json:"bad_key_pct"`
+	FifoPct       int            `json:"fifo_pct"`    // lock: share replaced by the macro "holder + four queued calls, one gives up, releases in turn"
 	PartialPct    int            `json:"partial_pct"` // ipcu: share replaced by the macro "two holds of a counting lock, release one, unlock by name"
 	NoSessPct     int            `json:"no_sess_pct"`
 	Drain         bool           `json:"drain"`           // finish with TryLocks until refused on every name
